@@ -104,6 +104,19 @@ impl<'a> CryptoReader<'a> {
         }
     }
 
+    /// Authenticates whatever ciphertext the decompressor left unread.
+    ///
+    /// The AES authentication code is checked when the last ciphertext byte is pulled; a
+    /// decompressor that sees its end-of-stream marker early never pulls it.
+    fn finish(&mut self) -> io::Result<()> {
+        #[cfg(feature = "aes-crypto")]
+        if let CryptoReader::Aes { reader, .. } = self {
+            let mut sink = [0u8; 4096];
+            while reader.read(&mut sink)? != 0 {}
+        }
+        Ok(())
+    }
+
     /// Returns `true` if the data is encrypted using AE2.
     pub fn is_ae2_encrypted(&self) -> bool {
         #[cfg(feature = "aes-crypto")]
@@ -156,6 +169,24 @@ impl<'a> Read for ZipFileReader<'a> {
 }
 
 impl<'a> ZipFileReader<'a> {
+    /// Called when the decoder has reported end-of-file: see [`CryptoReader::finish`].
+    fn finish_crypto(&mut self) -> io::Result<()> {
+        match self {
+            ZipFileReader::NoReader | ZipFileReader::Raw(_) => Ok(()),
+            ZipFileReader::Stored(r) => r.get_mut().finish(),
+            #[cfg(any(
+                feature = "deflate",
+                feature = "deflate-miniz",
+                feature = "deflate-zlib"
+            ))]
+            ZipFileReader::Deflated(r) => r.get_mut().get_mut().finish(),
+            #[cfg(feature = "bzip2")]
+            ZipFileReader::Bzip2(r) => r.get_mut().get_mut().finish(),
+            #[cfg(feature = "zstd")]
+            ZipFileReader::Zstd(r) => r.get_mut().get_mut().get_mut().finish(),
+        }
+    }
+
     /// Consumes this decoder, returning the underlying reader.
     pub fn into_inner(self) -> io::Take<&'a mut dyn Read> {
         match self {
@@ -988,7 +1019,11 @@ impl<'a> Read for ZipFile<'a> {
         if buf.is_empty() {
             return Ok(0);
         }
-        self.get_reader().read(buf)
+        let count = self.get_reader().read(buf)?;
+        if count == 0 {
+            self.reader.finish_crypto()?;
+        }
+        Ok(count)
     }
 }
 
